@@ -551,9 +551,60 @@ fn main() {
             }
         });
     }
+    // the same kind of long stream at every byte alignment relative to the reader's 8 KiB window
+    // (an extension message of k bytes in front shifts everything after it), with a third player
+    // that joins and leaves all the time so that the two-integer PLAYER_NEW / PLAYER_OLD kinds
+    // and record ends fall on the window boundaries in every possible way
+    {
+        let shifts: Vec<usize> = (0..=48).collect();
+        shifts.par_iter().for_each(|&k| {
+            let mut evs = vec![Ev::ExTest(k), Ev::New(0, 0, 0), Ev::New(1, 5, 5), Ev::InNew(0, 1)];
+            for i in 0..1200 {
+                evs.push(Ev::Diff(0, i, -i));
+                evs.push(Ev::Diff(1, 1, 1));
+                match i % 4 {
+                    0 => evs.push(Ev::New(2, i, 7)),
+                    1 => evs.push(Ev::Diff(2, 1, -1)),
+                    2 => evs.push(Ev::Old(2)),
+                    _ => {}
+                }
+                if i % 5 == 0 {
+                    evs.push(Ev::Msg(1, 3 + (i as usize % 13)));
+                }
+                if i % 50 == 0 {
+                    evs.push(Ev::Skip(i % 4));
+                }
+            }
+            evs.push(Ev::Finish);
+            let data = encode(&evs);
+            run.add_evals(1);
+            let base = match vp_core::catch(|| read_all(&data, &[])) {
+                Ok(Ok(b)) => b,
+                other => {
+                    run.violation("c17:shifted-long-stream-rejected", &format!("shift {}: {:?}", k, other.map(|r| r.map(|i| i.len()))), json!({"shift": k, "bytes": data.len()}));
+                    return;
+                }
+            };
+            if let Err(e) = check_structure(&evs, &base) {
+                run.violation("c17:shifted-long-stream-structure", &format!("shift {}: {}", k, e), json!({"shift": k}));
+                return;
+            }
+            for chunk in [1usize, 4096, 8191, 8192, 8193] {
+                run.add_evals(1);
+                match vp_core::catch(|| read_all(&data, &vec![chunk; data.len() / chunk + 1])) {
+                    Ok(Ok(items)) if items == base => {}
+                    other => {
+                        run.violation("c17:shifted-long-stream-fragmentation", &format!("shift {} chunk {}: {:?}", k, chunk, other.map(|r| r.map(|i| i.len()))), json!({"shift": k, "chunk": chunk}));
+                        return;
+                    }
+                }
+            }
+            run.class("long:shifted", || json!({"shift": k, "bytes": data.len()}));
+        });
+    }
     run.assume("streams are produced by an independent encoder from server histories that are valid per the format (players exist before they move, inputs are new before they are diffed)");
     run.finish(
-        &format!("all valid server histories of length <= {} over an 18-message alphabet (players 0..2 new/diff/old, tick skips 0/1/5, input new/diff, message, two extension messages, join, drop): decoded under every 1- and 2-piece fragmentation of the message part (quick: strided 3-piece; thorough: every 3-piece for length <= 4), byte-by-byte, with a zero-length read at every position, header cut at every byte; oracle: identical items, nesting, strictly increasing ticks equal to the documentation's pseudo-code, positions/inputs equal running sums; every truncation and 7-value byte substitution: value or error, fragmentation-independent; two long streams (> 3 x 8192 bytes) cut within +-16 bytes of every multiple of 8192 and in fixed chunks", depth),
+        &format!("all valid server histories of length <= {} over an 18-message alphabet (players 0..2 new/diff/old, tick skips 0/1/5, input new/diff, message, two extension messages, join, drop): decoded under every 1- and 2-piece fragmentation of the message part (quick: strided 3-piece; thorough: every 3-piece for length <= 4), byte-by-byte, with a zero-length read at every position, header cut at every byte; oracle: identical items, nesting, strictly increasing ticks equal to the documentation's pseudo-code, positions/inputs equal running sums; every truncation and 7-value byte substitution: value or error, fragmentation-independent; two long streams (> 3 x 8192 bytes) cut within +-16 bytes of every multiple of 8192 and in fixed chunks; 49 long streams with a player joining and leaving all the time, shifted byte by byte against the reader's 8 KiB window", depth),
         true,
     );
 }
